@@ -4,7 +4,7 @@ from __future__ import annotations
 import math
 import sys
 
-from vf import gen
+from vf import dense, gen
 from vf.budget import Budget, pairs_of
 from vf.core import Clause, Property, Violation
 from vf.osk import IS_TM, eff_tau, outcome_values, rate_values
@@ -65,6 +65,8 @@ PROPERTY = Property(
     clauses=[
         Clause(name="precision-weighted-balance", strategy=STRAT, check=check_c07, quick=8000, thorough=150000,
                rule="one rate() call; non-trivial = >= 3 teams or a tie"),
+        Clause(name="dense-two-team-sweep", strategy=dense.two_team_sweep(), check=check_c07, quick=12000, thorough=400000,
+               rule="two-team games with the standardised gap drawn uniformly from [-10, 10], all three outcomes; non-trivial = a draw"),
     ],
     rule="generated games (3/8 in the dyadic regime where sums are exact); oracle: |sum_i D_i/var_i| <= 1e-9 x (magnitude of the summands that must cancel) "
          "+ rounding of forming mu'-mu from the outputs + (TM) 2 kappa/c^2 per tied pair; equal-variance corollary; non-trivial = n >= 3 or a tie; distinct by SHA-1",
